@@ -194,7 +194,7 @@ TaskGated(id) ==
      IF ppanic[u.pred]
      THEN IF u.fb
           THEN \* T:60-64: TaskPanicRecovered, outputs := fallback values, err := nil
-               /\ v' = SetOuts(u, LAMBDA i : FBTok(id, i))
+               /\ v' = SetOuts(u, LAMBDA i : FBTokOf(u, i))
                /\ pend' = [pend EXCEPT ![id] = <<"ok">>]
           ELSE \* T:66-71: TaskPanic, err := PanicError{Value: parked value}
                /\ pend' = [pend EXCEPT ![id] = <<"fail", <<"P", UnitNum(u.pred, -1)>>>>]
@@ -230,7 +230,7 @@ TaskEnd(id, o) ==
      IN /\ m' = Feed(m, TaskEndEvs(id, o))
         /\ ran' = [ran EXCEPT ![id] = TRUE]
         /\ v' = CASE o = "ok" -> SetOuts(u, LAMBDA i : OutTok(id, i))
-                  [] u.fb -> SetOuts(u, LAMBDA i : FBTok(id, i))                             \* T:62-64 / T:93-95
+                  [] u.fb -> SetOuts(u, LAMBDA i : FBTokOf(u, i))                             \* T:62-64 / T:93-95
                   [] OTHER -> v
         /\ pend' = [pend EXCEPT ![id] = IF o = "ok" \/ u.fb THEN <<"ok">> ELSE <<"fail", etok>>]
   /\ js' = [js EXCEPT ![id] = "post"]
